@@ -246,3 +246,84 @@ def c19_r4(ctx):
     ctx.ob(base, True, "IndexReader.terms_within expands the given field as is: %s" % (
         "no spelling_fieldname" if "spelling_fieldname" not in norm.canon(base.node) else "translates"))
     ctx.saw(seg)
+
+
+@rule("C19", "R5", "K4", "every corrector produces (score, word) pairs, and the sorted-list lookup never steps over an uncompared word",
+      min_instances=3,
+      clause="Corrector.suggest() unpacks what _suggestions() produces as (score, suggestion).  Every _suggestions implementation "
+             "produces its pairs in that order: a yielded/generated 2-tuple has the candidate word (a loop variable over the word "
+             "source, or the second name unpacked from a sub-corrector's pairs) in second place, and the items of a dict are returned "
+             "only if the dict is keyed by the score side.  ListCorrector's lookup helper positions itself only by bisection: its "
+             "cursor is never advanced arithmetically past a word that has not been compared with the probe.")
+def c19_r5(ctx):
+    prog = ctx.prog
+    base = prog.cls("spelling.Corrector")
+    n = 0
+    for cls in prog.subclasses(base, strict=True):
+        f = cls.methods.get("_suggestions")
+        if f is None or is_abstract_body(f):
+            continue
+        n += 1
+        ctx.saw(f)
+        words = set()
+        for lp in ast.walk(f.node):
+            if isinstance(lp, (ast.For, ast.comprehension)):
+                t = lp.target
+                if isinstance(t, ast.Name):
+                    words.add(t.id)
+                elif isinstance(t, ast.Tuple) and len(t.elts) == 2 and all(isinstance(e, ast.Name) for e in t.elts):
+                    src = norm.canon(lp.iter)
+                    if "_suggestions(" in src:
+                        words.add(t.elts[1].id)          # for score, sug in corr._suggestions(...)
+                    elif norm.call_name(lp.iter) in ("iteritems", "items") if isinstance(lp.iter, ast.Call) else False:
+                        pass                            # decided below through the dict's keys
+        pairs = []
+        for x in ast.walk(f.node):
+            if isinstance(x, ast.Yield) and isinstance(x.value, ast.Tuple) and len(x.value.elts) == 2:
+                pairs.append((x.value.elts[0], x.value.elts[1], x))
+            if isinstance(x, (ast.GeneratorExp, ast.ListComp)) and isinstance(x.elt, ast.Tuple) and len(x.elt.elts) == 2:
+                pairs.append((x.elt.elts[0], x.elt.elts[1], x))
+        # dicts keyed by a word: their items are (word, score)
+        word_keyed = set()
+        for st in ast.walk(f.node):
+            if isinstance(st, ast.Assign):
+                for t in st.targets:
+                    if isinstance(t, ast.Subscript) and isinstance(t.value, ast.Name) and isinstance(t.slice, ast.Name) and t.slice.id in words:
+                        word_keyed.add(t.value.id)
+        bad = []
+        for a_, b_, node in pairs:
+            # a generator over the items of a word-keyed dict binds (word, score) names itself
+            local_words = set(words)
+            if isinstance(node, (ast.GeneratorExp, ast.ListComp)):
+                g = node.generators[0]
+                if isinstance(g.iter, ast.Call) and norm.call_name(g.iter) in ("iteritems", "items") and isinstance(g.target, ast.Tuple) \
+                        and len(g.target.elts) == 2 and all(isinstance(e, ast.Name) for e in g.target.elts):
+                    dname = norm.canon(g.iter.args[0]) if g.iter.args else norm.canon(norm.receiver(g.iter))
+                    if dname in word_keyed:
+                        local_words = (local_words - {g.target.elts[1].id}) | {g.target.elts[0].id}
+            first_is_word = isinstance(a_, ast.Name) and a_.id in local_words
+            second_is_word = isinstance(b_, ast.Name) and b_.id in local_words
+            if first_is_word or not second_is_word:
+                bad.append("(%s, %s)" % (norm.canon(a_), norm.canon(b_)))
+        for r in returns_of(f):
+            v = r.value
+            if isinstance(v, ast.Call) and norm.call_name(v) in ("iteritems", "items"):
+                dname = norm.canon(v.args[0]) if v.args else norm.canon(norm.receiver(v))
+                if dname in word_keyed:
+                    bad.append("items of %s, a dict keyed by the word: (word, score)" % dname)
+                pairs.append((None, None, v))
+        ctx.ob(f, bool(pairs) and not bad, "%s._suggestions produces (score, word) pairs" % cls.name,
+               detail="wrong order / unrecognised: %s" % bad if bad else "")
+    if n < 3:
+        raise AnalysisError("only %d _suggestions implementations found" % n)
+    sk = prog.cls("spelling.ListCorrector.Skipper") if prog.has_cls("spelling.ListCorrector.Skipper") else None
+    if sk is None:
+        raise AnalysisError("ListCorrector.Skipper vanished")
+    call = sk.methods.get("__call__")
+    ctx.saw(call)
+    moves = [st for st in ast.walk(call.node) if isinstance(st, (ast.Assign, ast.AugAssign)) and
+             any(norm.canon(t) == "self.i" for t in (st.targets if isinstance(st, ast.Assign) else [st.target]))]
+    arith = [norm.stmt_text(st) for st in moves if isinstance(st, ast.AugAssign) or
+             not (isinstance(st.value, ast.Call) and norm.call_name(st.value) in ("bisect_left", "bisect"))]
+    ctx.ob(call, bool(moves) and not arith, "the lookup cursor moves only to a bisection result",
+           detail="moved by %s: a word at the old position that was never compared with the probe is stepped over" % arith if arith else "")
